@@ -178,6 +178,7 @@ func checkStrand(c strandCase) error {
 		rcOnS, fwdOnRC      []hit
 		rcMatch, fwdMatchRC bool
 		rcText              string
+		predOne, predBoth   bool
 	)
 	if err := guarded(c.String(), func(stage *string) {
 		*stage = "MakeApatPattern"
@@ -207,6 +208,9 @@ func checkStrand(c strandCase) error {
 		*stage = "IsMatching"
 		rcMatch = rc.IsMatching(s1, 0, -1)
 		fwdMatchRC = pat.IsMatching(s2, 0, -1)
+		*stage = "IsPatternMatchSequence"
+		predOne = obiapat.IsPatternMatchSequence(c.Pattern, c.Budget, false, c.Indel)(bioseq(c.Seq))
+		predBoth = obiapat.IsPatternMatchSequence(c.Pattern, c.Budget, true, c.Indel)(bioseq(c.Seq))
 	}); err != nil {
 		return err
 	}
@@ -222,6 +226,25 @@ func checkStrand(c strandCase) error {
 	if rcMatch != fwdMatchRC {
 		return fmt.Errorf("%s: reverse-complemented pattern %q matches the sequence: %v; pattern matches the reverse-complemented sequence %q: %v", c, rcText, rcMatch, rcs, fwdMatchRC)
 	}
+	// the sequence predicate built on both: direct strand only / either strand
+	rcm := revcompModel(pp)
+	var direct, reverse bool
+	if c.Indel {
+		direct = minOf(sellers(pp, c.Seq, 0, n)) <= c.Budget
+		reverse = minOf(sellers(rcm, c.Seq, 0, n)) <= c.Budget
+	} else {
+		direct = len(bruteHits(pp, c.Seq, c.Budget)) > 0
+		reverse = len(bruteHits(rcm, c.Seq, c.Budget)) > 0
+	}
+	if predOne != direct {
+		return fmt.Errorf("%s: IsPatternMatchSequence(bothStrand=false) = %v; the pattern matches the sequence: %v", c, predOne, direct)
+	}
+	if predBoth != (direct || reverse) {
+		return fmt.Errorf("%s: IsPatternMatchSequence(bothStrand=true) = %v; the pattern matches the sequence: %v, its reverse complement matches: %v", c, predBoth, direct, reverse)
+	}
+	if rcMatch != reverse {
+		return fmt.Errorf("%s: the reverse-complemented pattern %q matches the sequence: %v; by the model: %v", c, rcText, rcMatch, reverse)
+	}
 	if c.Indel {
 		// with indels the raw hit positions are end-anchored ("may return shifted pos"): only the verdict is mirrored
 		return nil
@@ -231,7 +254,7 @@ func checkStrand(c strandCase) error {
 		return fmt.Errorf("%s: reverse-complemented pattern %q finds %v; pattern on the reverse-complemented sequence %q finds %v, i.e. %v once mirrored", c, rcText, rcOnS, rcs, fwdOnRC, want)
 	}
 	// and both agree with the model of the reverse-complemented pattern
-	model := bruteHits(revcompModel(pp), c.Seq, c.Budget)
+	model := bruteHits(rcm, c.Seq, c.Budget)
 	if err := judgeHits(c.String()+": FindAllIndex of the reverse-complemented pattern "+rcText, rcOnS, model, makeWindow(n, 0, -1), true); err != nil {
 		return err
 	}
